@@ -700,7 +700,7 @@ def const_model():
     m.ext["np.median"] = lambda it, x, *a, **k: _median(x if isinstance(x, Arr) else Arr(x))
     m.ext["np.mean"] = lambda it, x, *a, **k: x.mean()
     m.ext["np.percentile"] = lambda it, x, q, *a, **k: _percentile(x if isinstance(x, Arr) else Arr(x), q)
-    m.ext["np.isnan"] = lambda it, x: Arr(False for _ in x.v) if isinstance(x, Arr) else False
+    m.ext["np.isnan"] = lambda it, x: Arr(e is None for e in x.v) if isinstance(x, Arr) else (x is None)      # None stands for NaN
 
     def np_abs(it, x):
         from .absmodel import builtin
@@ -745,11 +745,19 @@ def check_constant(chk, prog, LOCATION, SCALE):
         weighted = (LOCATION.get(name) or SCALE.get(name)) == "on_weighted_array"
         fi = prog.fn(f"{DESC}.{name}")
         problems = []
-        for size in (3, 2, 1):
+        for size in (3, 2, 1, "1 among NaN", "empty", "all NaN"):
             W.reset()
             k = Term.sym("k")
             it = Interp(prog, const_model())
-            args = [Arr([k] * size)] + ([Arr([1] * size)] if weighted else [])
+            if isinstance(size, int):
+                vals, wts = [k] * size, [1] * size
+            elif size == "1 among NaN":
+                vals, wts = [None, k, None], [1, 1, 1]
+            elif size == "empty":
+                vals, wts = [], []
+            else:
+                vals, wts = [None, None], [1, 1]
+            args = [Arr(vals)] + ([Arr(wts)] if weighted else [])
 
             def generic_k(d, op):
                 # k stands for a generic (non-zero) value: a non-zero polynomial in k is != 0; order comparisons stay undecided
@@ -766,15 +774,23 @@ def check_constant(chk, prog, LOCATION, SCALE):
                 problems.append(f"n={size}: raises {e}")
                 continue
             except Undecided as e:
+                if size == "1 among NaN" and "None" in str(e):
+                    # a missing value took part in the estimator's arithmetic: it was not stripped first
+                    problems.append(f"{size}: a NaN reaches the estimator body ({e})")
+                    continue
                 raise AnalysisError(f"C19-D5: cannot evaluate {name} on constant data (n={size}): {e}")
             finally:
                 CTX.atoms = old
+            if size in ("empty", "all NaN"):
+                if out is not None:
+                    problems.append(f"{size}: returns {out!r}, expected NaN (no data)")
+                continue
             want = k if name in LOCATION else 0
             if out is None or not same(out, want):
                 problems.append(f"n={size}: returns {out!r}, expected {'the common value k' if name in LOCATION else '0'}")
         n += 1
-        chk.decide(not problems, "constant-data", f"{name}: {'k' if name in LOCATION else '0'} on constant data (n = 3, 2, 1)", f"{fi.qn}::constant data", fi.loc(),
-                   "; ".join(problems), witness=dict(example=f"{name}([5, 5, 5])"), cells=3)
+        chk.decide(not problems, "constant-data", f"{name}: {'k' if name in LOCATION else '0'} on constant data (n = 3, 2, 1, one value among NaN); NaN for no data", f"{fi.qn}::constant data", fi.loc(),
+                   "; ".join(problems), witness=dict(example=f"{name}([5, 5, 5])"), cells=6)
     chk.floor("estimators evaluated on constant data", n, 11)
 
 
